@@ -111,6 +111,10 @@ def report(prop, tier, seed, spec_, results, skipped, known, t0, args):
           (prop, kid, _known_text(k), r["profile"], r["run_index"],
            v.get("step"), v["message"]))
   for (p, key), (r, v) in sorted(also.items(), key=lambda kv: kv[0]):
+    if p == "ROBUSTNESS":
+      print("ROBUSTNESS-NOTE (non-gating asynchronous-abort probe) %s (run "
+            "%s/%s)" % (v["message"], r["profile"], r["run_index"]))
+      continue
     print("ALSO-OBSERVED property=%s %s (run %s/%s; authoritative check: "
           "that property's own command)" % (p, v["message"], r["profile"],
                                             r["run_index"]))
